@@ -254,17 +254,14 @@ FIXED = [
 
 
 def gen(rng, n, tier):
-    """n = number of random histories (each at most ~40 ops), preceded by the fixed scenarios and the
-    exhaustive small-alphabet enumeration (quick: all sequences of length <= 2 over the full alphabet and
-    <= 3 over the reduced one; thorough: <= 4 and <= 5)."""
+    """n = number of random histories (each at most ~40 ops), preceded by the fixed scenarios and (quick tier) the
+    small exhaustive enumeration: all sequences of length <= 2 over the full alphabet and <= 3 over the reduced
+    one. The thorough tier runs the big enumeration in shards (`exhaustive_shards`)."""
     ops = []
     for f in FIXED:
         ops.extend(f)
         ops.append("reset")
-    if tier == "thorough":
-        ops.extend(exhaustive(EX_FULL, 4))
-        ops.extend(exhaustive(EX_SMALL, 5))
-    else:
+    if tier != "thorough":
         ops.extend(exhaustive(EX_FULL, 2))
         ops.extend(exhaustive(EX_SMALL, 3))
     for i in range(n):
@@ -274,6 +271,36 @@ def gen(rng, n, tier):
         ops.extend(g.history(nops))
         ops.append("reset")
     return ops
+
+
+def exhaustive_shards():
+    """thorough tier: ALL op sequences of length <= 4 over EX_FULL (6 offsets x 4 lengths, FIN variants, reads,
+    single pop, skips) and of length <= 5 over EX_SMALL, cut into shards of about a million lines (memory)"""
+    grouped = []
+    cur_name, cur = [], []
+    for first in EX_FULL:
+        cur_name.append(first)
+        for k in range(0, 4):
+            for seq in itertools.product(EX_FULL, repeat=k):
+                cur.append(first)
+                cur.extend(seq)
+                cur.append("reset")
+        if len(cur) > 1000000:
+            grouped.append((f"all sequences of length <= 4 over {len(EX_FULL)} ops starting with one of {cur_name}", cur))
+            cur_name, cur = [], []
+    if cur:
+        grouped.append((f"all sequences of length <= 4 over {len(EX_FULL)} ops starting with one of {cur_name}", cur))
+    small = []
+    for k in range(1, 6):
+        for seq in itertools.product(EX_SMALL, repeat=k):
+            small.extend(seq)
+            small.append("reset")
+    half = len(small) // 2
+    while small[half - 1] != "reset":
+        half += 1
+    grouped.append((f"all sequences of length <= 5 over {len(EX_SMALL)} ops (part 1)", small[:half]))
+    grouped.append((f"all sequences of length <= 5 over {len(EX_SMALL)} ops (part 2)", small[half:]))
+    return grouped
 
 
 def resolve_chunks(lines, impl_outs):
@@ -546,28 +573,43 @@ def nontrivial(op, out):
 # tie D, shared by props/parts/C16_reassembler.py and props/parts/C01_reassembly.py
 # ---------------------------------------------------------------------------------------
 
-def diff(ctx, n):
+def diff(ctx, n, exhaustive_too=False):
     """two passes: the implementation runs the generated ops once so that the chunk length of every
     single-pop (`popn`) is known, then implementation and model run the resolved ops side by side"""
     import sys
     import vlib
     me = sys.modules[__name__]
 
-    class Resolved:
-        oracle = staticmethod(me.oracle)
-        nontrivial = staticmethod(me.nontrivial)
+    def resolve(lines):
+        rc, outs, err = vlib.run_lines([vlib.harness_bin("vh-core"), "reassembler"], lines)
+        if rc != 0 or len(outs) != len(lines):
+            raise RuntimeError(f"vh-core reassembler failed rc={rc} lines={len(outs)}/{len(lines)}: {err[-1000:]}")
+        return me.resolve_chunks(lines, outs)
 
-        @staticmethod
-        def gen(rng, n, tier):
-            lines = me.gen(rng, n, tier)
-            rc, outs, err = vlib.run_lines([vlib.harness_bin("vh-core"), "reassembler"], lines)
-            if rc != 0 or len(outs) != len(lines):
-                raise RuntimeError(f"vh-core reassembler failed rc={rc} lines={len(outs)}/{len(lines)}: {err[-1000:]}")
-            return me.resolve_chunks(lines, outs)
+    def module(make_lines, count_distinct=True):
+        class Resolved:
+            oracle = staticmethod(me.oracle)
+            # the exhaustive shards are not entered into the distinct-case set (tens of millions of keys)
+            nontrivial = staticmethod(me.nontrivial if count_distinct else (lambda op, out: None))
 
-    lines, r_out, l_out, mism = vlib.step_diff(ctx, "vh-core", "reassembler", Resolved, n)
-    hist = sum(1 for l in lines if l == "reset")
-    ctx.count("reassembler:histories", hist)
-    ctx.count("reassembler:payload_bytes_written", sum(int(l.split()[2]) for l, o in zip(lines, r_out) if l.startswith("w ") and o.startswith("ok")))
-    ctx.count("reassembler:bytes_read_back", sum(tok_len(o.split()[1]) for l, o in zip(lines, r_out) if l[:4] in ("read", "popn") and o.startswith("ok")))
+            @staticmethod
+            def gen(rng, n, tier):
+                return resolve(make_lines(rng, n, tier))
+        return Resolved
+
+    def account(lines, r_out):
+        ctx.count("reassembler:histories", sum(1 for l in lines if l == "reset"))
+        ctx.count("reassembler:payload_bytes_written",
+                  sum(int(l.split()[2]) for l, o in zip(lines, r_out) if l.startswith("w ") and o.startswith("ok")))
+        ctx.count("reassembler:bytes_read_back",
+                  sum(tok_len(o.split()[1]) for l, o in zip(lines, r_out) if l[:4] in ("read", "popn") and o.startswith("ok")))
+
+    lines, r_out, l_out, mism = vlib.step_diff(ctx, "vh-core", "reassembler", module(me.gen), n)
+    account(lines, r_out)
+    if exhaustive_too:
+        for name, ops in exhaustive_shards():
+            res = vlib.step_diff(ctx, "vh-core", "reassembler", module(lambda rng, n, tier, ops=ops: ops, False), 0,
+                                 name="D:vh-core/reassembler exhaustive, " + name)
+            account(res[0], res[1])
+            del res
     return lines, r_out, l_out, mism
